@@ -59,6 +59,69 @@ class SDecoded(Sym):
         self.raw = raw
 
 
+class SDecodedLower(Sym):
+    """d.lower() of a decoded message d (only ever compared with a literal)."""
+    __slots__ = ('d',)
+
+    def __init__(self, d):
+        self.d = d
+
+
+def decoded_eq(it, d, other):
+    """d == other for a received message d (the str whose UTF-8 bytes are d.raw).
+
+    A literal is compared byte by byte (exact).  A text with unknown parts (a team name ...) gives
+    an uninterpreted truth value, the same for the same message and the same text: both outcomes are
+    followed, nothing is assumed about an unknown message."""
+    from .strings import XStr
+    from .values import mk_bool, b_or, b_and, T
+    raw = d.raw
+    if isinstance(other, SDecoded):
+        if other is d or (other.raw.arr.eq(raw.arr) and z3.simplify(T(other.raw.n) == T(raw.n)).eq(
+                z3.BoolVal(True))):
+            return True
+        raise EngineError('comparison of two different received messages')
+    if isinstance(other, XStr):
+        other = other.simplify()
+
+    def lit_eq(text):
+        bs = text.encode('utf-8')
+        return mk_bool(z3.And(T(raw.n) == len(bs), *[z3.Select(raw.arr, i) == b
+                                                     for i, b in enumerate(bs)]))
+    if isinstance(other, str):
+        return lit_eq(other)
+    if isinstance(other, XStr):
+        if other.alts is not None:
+            return b_or(*[b_and(mk_bool(g) if not isinstance(g, bool) else g, lit_eq(t))
+                          for g, t in other.alts])
+        # (conditional pieces -- a seat name that depends on a symbolic seat -- are part of the
+        # key through the identity of their guards)
+        key = (raw.arr.get_id(), T(raw.n).get_id(),
+               tuple((g if isinstance(g, bool) else g.get_id(),
+                      p if isinstance(p, str) else ('atom', p.name)) for g, p in other.segs))
+        cache = it.__dict__.setdefault('_decoded_eq', {})
+        if key not in cache:
+            cache[key] = mk_bool(it.ctx.fresh_bool('msg_is'))
+        return cache[key]
+    return False
+
+
+def decoded_lower_eq(it, dl, other):
+    """d.lower() == literal, exact for ASCII literals (no character outside ASCII lower-cases to
+    one of s t a r o f b d ...; 'k' and 'i' are excluded because U+212A and U+0130 do)."""
+    from .values import mk_bool, T
+    if not isinstance(other, str) or not other.isascii() or any(c in 'ki' for c in other) or \
+            other != other.lower():
+        raise EngineError('lower() of a received message compared with something but an ASCII '
+                          'lower-case literal without k / i')
+    raw = dl.d.raw
+    conj = [T(raw.n) == len(other)]
+    for i, c in enumerate(other):
+        b = z3.Select(raw.arr, i)
+        conj.append(z3.Or(b == ord(c), b == ord(c.upper())) if c.isalpha() else b == ord(c))
+    return mk_bool(z3.And(*conj))
+
+
 LINE_BLANK, LINE_PERCENT, LINE_CONTENT = 0, 1, 2
 _line_kind = z3.Function('line_kind', z3.IntSort(), z3.IntSort())
 
